@@ -68,7 +68,7 @@ E('pushheader', lambda t: petl.pushheader(t, ['x', 'y', 'z']), stream=True, rows
 E('prefixheader', lambda t: petl.prefixheader(t, 'p_'), stream=True)
 E('suffixheader', lambda t: petl.suffixheader(t, '_s'), stream=True)
 E('sortheader', lambda t: petl.sortheader(t), stream=True)
-E('skip', lambda t: petl.skip(t, 1), stream=True, hdr=None)
+E('skip', lambda t: petl.skip(t, 1), stream=True, hdr=None, header_is_data=True)   # its header IS the first data row
 # ---- conversions
 E('convert', lambda t: petl.convert(t, 'b', lambda v: v + 1), stream=True)
 E('convert-dict', lambda t: petl.convert(t, {'a': str, 'b': float}), stream=True)
